@@ -217,6 +217,29 @@ def oracle(case):
             break
         if len(set(lst)) != len(set(map(str, keys))):
             out.append(Disc('set-collapse', f'/{kind}', len(set(map(str, keys))), len(set(lst))))
+    # ILI objects: an existing ILI is identified by its id, a proposed one by its synset
+    ilis = []
+    listed = call(w.ilis)
+    for x in ([] if _raised(listed) else listed):
+        if x.id:
+            ilis.append((('ili', x.id), x))
+    for ss in w.synsets():
+        x = call(lambda: ss.ili)
+        if x is not None and not _raised(x):
+            ilis.append(((('ili', x.id) if x.id else ('proposed', str(key_of(ss)))), x))
+    for ka, a in ilis:
+        for kb, b_ in ilis:
+            same = ka == kb
+            if (a == b_) != same:
+                out.append(Disc('equality', '/ili', f'== iff same ILI ({same})',
+                                [list(ka), list(kb), a == b_]))
+                break
+            if same and hash(a) != hash(b_):
+                out.append(Disc('hash', '/ili', 'equal objects hash alike', [list(ka), list(kb)]))
+                break
+        else:
+            continue
+        break
     # different kinds never equal
     if objs['s'] and objs['ss'] and objs['s'][0] == objs['ss'][0]:
         out.append(Disc('equality', '/cross-kind', 'sense != synset', 'equal'))
